@@ -1061,6 +1061,21 @@ def rule_r4(repo: Repo, res: Result) -> None:
     opaque = tr.opaque_calls(lambda e: e.func == ("fn", gpm.fq) or e.name in api)
     lost = f"the construction calls `{norm(opaque[0].node, 70)}`, which the analysis cannot follow" if opaque else ""
 
+    # the hierarchy is asked for through `parent_child_relationship`: two names related by *characters* are not parent and child
+    pcr = g.methods.get("parent_child_relationship")
+    if pcr is not None and len(pcr.param_names) == 3:
+        try:
+            sxq = SymX(repo, T, first_id=50_000)
+            trq = sxq.run(pcr)
+            a_, b_ = ("param", pcr.param_names[1]), ("param", pcr.param_names[2])
+            seen_q = [x for _pc, t in trq.returns for x in subterms(t)] + [x for k_ in sxq.atoms for x in subterms(sxq.atoms[k_])]
+            for x in seen_q:
+                if x[0] == "mcall" and x[2] == "startswith" and len(x[3]) == 1 and {x[1], x[3][0]} == {a_, b_}:
+                    res.add("C04.R4", f"{pcr.relpath}::{pcr.qualname}::hierarchy read from the edges", False, f"`{show(x, 80)}` decides whether one module is the parent of another: by characters `pkg.ab` lies below `pkg.a`; the relation is the `inherits` flag of the edge, which the construction sets along the directory tree", where(pcr, pcr.node), kind="structural")
+                    break
+        except AnalysisError:
+            pass
+
     # a memoised ancestors function hands out the same list object again and again: the graph builder must not change it in place
     if any("lru_cache" in d or d.rsplit(".", 1)[-1] == "cache" for d in gpm.decorators):
         for e in tr.events:
